@@ -46,6 +46,7 @@ struct Shared {
     first_cb_ns: AtomicU64,       // 0 = no callback yet; nanoseconds since the harness epoch
     calls_after_stop: AtomicU64,
     net_order: Mutex<Vec<u64>>,    // payload numbers of network messages in delivery order
+    sig_order: Mutex<Vec<u64>>,    // signals in delivery order
     log: Mutex<Vec<String>>,
     inject: Mutex<Option<(UdpSocket, std::net::SocketAddr)>>,
 }
@@ -57,7 +58,7 @@ fn on_event(sh: &Shared, handler: &NodeHandler<u64>, sc: &Sc, kind: char, payloa
     if call == 0 { sh.first_cb_ns.store(epoch().elapsed().as_nanos() as u64 + 1, Ordering::SeqCst); }
     if sh.stopped_at_call.load(Ordering::SeqCst) != usize::MAX { sh.calls_after_stop.fetch_add(1, Ordering::SeqCst); }
     verif::trace("cb_enter", ((kind as u64) << 32) | (payload & 0xffff_ffff));
-    if kind == 'n' { sh.net_order.lock().unwrap().push(payload); }
+    if kind == 'n' { sh.net_order.lock().unwrap().push(payload); } else { sh.sig_order.lock().unwrap().push(payload); }
     if sc.cb_micros > 0 { std::thread::sleep(Duration::from_micros(sc.cb_micros + (payload % 3) * 50)); }
     let nets = sh.net_order.lock().unwrap().len();
     let session_msg = kind == 'n' && payload == 600_000 && sc.live_session_stop;
@@ -83,11 +84,13 @@ fn on_event(sh: &Shared, handler: &NodeHandler<u64>, sc: &Sc, kind: char, payloa
 
 fn epoch() -> Instant { static E: std::sync::OnceLock<Instant> = std::sync::OnceLock::new(); *E.get_or_init(Instant::now) }
 
+fn name_of(sc: &Sc) -> String { format!("{:?} pre={} live={} signals={} stop={:?} cb={}us", sc.mode, sc.pre_datagrams, sc.live_datagrams, sc.signals, sc.stop, sc.cb_micros) }
+
 pub fn run_scenario(sc: &Sc, out: &mut Out) -> Option<String> {
     let _ = epoch();
     let _ = verif::take();
     let (handler, listener) = node::split::<u64>();
-    let sh = Arc::new(Shared { in_cb: AtomicBool::new(false), overlaps: AtomicU64::new(0), calls: AtomicUsize::new(0), stopped_at_call: AtomicUsize::new(usize::MAX), first_cb_ns: AtomicU64::new(0), calls_after_stop: AtomicU64::new(0), net_order: Mutex::new(vec![]), log: Mutex::new(vec![]), inject: Mutex::new(None) });
+    let sh = Arc::new(Shared { in_cb: AtomicBool::new(false), overlaps: AtomicU64::new(0), calls: AtomicUsize::new(0), stopped_at_call: AtomicUsize::new(usize::MAX), first_cb_ns: AtomicU64::new(0), calls_after_stop: AtomicU64::new(0), net_order: Mutex::new(vec![]), sig_order: Mutex::new(vec![]), log: Mutex::new(vec![]), inject: Mutex::new(None) });
     let (_lid, addr) = handler.network().listen(Transport::Udp, "127.0.0.1:0").unwrap();
     let sock = UdpSocket::bind("127.0.0.1:0").unwrap();
     *sh.inject.lock().unwrap() = Some((UdpSocket::bind("127.0.0.1:0").unwrap(), addr));
@@ -225,6 +228,17 @@ pub fn run_scenario(sc: &Sc, out: &mut Out) -> Option<String> {
         let first = sh.first_cb_ns.load(Ordering::SeqCst);
         if first == 0 || first.saturating_sub(start_ns) > 1_000_000_000 {
             out.violation(&format!("[C15,C18] a datagram arrives every 7 ms from before the listener call on: the first event reached the callback {} after the call (cached and live events must be delivered whatever the traffic at the moment of the hand-over) ({})", if first == 0 { "never".to_string() } else { format!("{} ms", first.saturating_sub(start_ns) / 1_000_000) }, name));
+        }
+    }
+    // C06 at node level: signals sent by one thread through the same kind of call reach the callback
+    // in the order they were sent (k % 3: 0 = send, 1 = send_with_priority, 2 = send_with_timer(2k ms))
+    {
+        let sigs: Vec<u64> = sh.sig_order.lock().unwrap().iter().cloned().filter(|k| *k < 100_000).collect();
+        for (kind, name) in [(0u64, "send()"), (1, "send_with_priority()"), (2, "send_with_timer()")] {
+            let sub: Vec<u64> = sigs.iter().cloned().filter(|k| k % 3 == kind).collect();
+            if sub.windows(2).any(|w| w[0] >= w[1]) {
+                out.violation(&format!("[C06,C07] signals sent through {} before the listener call were delivered to the callback out of order or twice: {:?} ({})", name, sub, name_of(sc)));
+            }
         }
     }
     out.count(&format!("mode_{:?}", sc.mode));
@@ -369,6 +383,8 @@ pub fn run(a: &Args) {
         scs.push(Sc { mode, pre_datagrams: 3, live_datagrams: 4, signals: 2, stop: StopAt::External(400), cb_micros: 0, inflight: false, pre_session: false, live_session_stop: false, flood: false, timer_churn: false, pre_flood: true });
         // more cached events than any fixed small capacity
         scs.push(Sc { mode, pre_datagrams: if a.thorough { 3000 } else { 1100 }, live_datagrams: 5, signals: 2, stop: StopAt::External(700), cb_micros: 0, inflight: false, pre_session: false, live_session_stop: false, flood: false, timer_churn: false, pre_flood: false });
+        // the callback is busy with slow network events while plain / priority / timed signals are pending
+        scs.push(Sc { mode, pre_datagrams: 4, live_datagrams: 6, signals: 18, stop: StopAt::External(500), cb_micros: 20_000, inflight: false, pre_session: false, live_session_stop: false, flood: false, timer_churn: false, pre_flood: false });
         // a long start-up cache, a callback slow enough for the live traffic to arrive during the replay
         scs.push(Sc { mode, pre_datagrams: 300, live_datagrams: 30, signals: 4, stop: StopAt::NetEvent(329), cb_micros: 150, inflight: false, pre_session: false, live_session_stop: false, flood: false, timer_churn: false, pre_flood: false });
         scs.push(Sc { mode, pre_datagrams: 20, live_datagrams: 40, signals: 20, stop: StopAt::NetEvent(45), cb_micros: 100, inflight: false, pre_session: false, live_session_stop: false, flood: false, timer_churn: false, pre_flood: false });
